@@ -325,9 +325,12 @@ macro_rules! caps_slice {
             Some(json!({"writes":writes}))
         }
     };
+    (CPVec) => { caps_slice!(CVec); };
+    (CPDefVec) => { caps_slice!(CDefVec); };
+    (CPDense) => { caps_slice!(CDense); };
     ($other:ident) => {};
 }
 
-caps_plain!(CVec, CDense, CHash, CBTree, CDefVec, CNull);
-caps_flagged!(CFVec, CFDense, CFHash, CFBTree, CFDefVec, CFNull);
+caps_plain!(CVec, CDense, CHash, CBTree, CDefVec, CNull, CPVec, CPDense, CPHash, CPBTree, CPDefVec);
+caps_flagged!(CFVec, CFDense, CFHash, CFBTree, CFDefVec, CFNull, CPFHash);
 caps_deref!(CDVec, CDDense, CDHash, CDBTree, CDDefVec, CDNull);
